@@ -67,8 +67,8 @@ func (w *World) EnableInlining(mentioned func(key, name string) bool) int {
 		if v, done := pre[h]; done {
 			return v
 		}
-		r := h != nil && h.Blocks != nil && h.Parent() == nil && h.Pkg != nil &&
-			strings.HasPrefix(h.Pkg.Pkg.Path(), Module) && !strings.Contains(h.Pkg.Pkg.Path(), "/mocks/") &&
+		r := h != nil && h.Blocks != nil && h.Parent() == nil && pkgOf(h) != nil &&
+			strings.HasPrefix(pkgOf(h).Pkg.Path(), Module) && !strings.Contains(pkgOf(h).Pkg.Path(), "/mocks/") &&
 			!token.IsExported(h.Name()) && h.Name() != "init" && !strings.HasPrefix(h.Name(), "init#") &&
 			!mentioned(FuncKey(h), h.Name())
 		pre[h] = r
@@ -127,9 +127,9 @@ func (w *World) EnableInlining(mentioned func(key, name string) bool) int {
 				}
 				h := c.Call.StaticCallee()
 				if dbg := os.Getenv("DSCHECK_DEBUG_INLINE_FN"); dbg != "" && h != nil && strings.Contains(h.Name(), dbg) {
-					fmt.Printf("inline? %s from %s: blocks=%v parent=%v exported=%v mentioned=%v recursive=%v samepkg=%v\n", FuncKey(h), FuncKey(f), h.Blocks != nil, h.Parent() != nil, token.IsExported(h.Name()), mentioned(FuncKey(h), h.Name()), recursive(h), h.Pkg == tf.Pkg)
+					fmt.Printf("inline? %s from %s: blocks=%v parent=%v exported=%v mentioned=%v recursive=%v samepkg=%v\n", FuncKey(h), FuncKey(f), h.Blocks != nil, h.Parent() != nil, token.IsExported(h.Name()), mentioned(FuncKey(h), h.Name()), recursive(h), pkgOf(h) == tf.Pkg)
 				}
-				if h == nil || h == f || !candidate(h) || h.Pkg != tf.Pkg {
+				if h == nil || h == f || !candidate(h) || pkgOf(h) != tf.Pkg {
 					continue
 				}
 				st.callee[c] = h
@@ -396,4 +396,18 @@ func Spawned(f *ssa.Function) []*ssa.Function {
 		}
 	}
 	return out
+}
+
+// pkgOf: the package a function belongs to; instantiations of generic functions belong to their origin's package.
+func pkgOf(f *ssa.Function) *ssa.Package {
+	if f == nil {
+		return nil
+	}
+	if f.Pkg != nil {
+		return f.Pkg
+	}
+	if o := f.Origin(); o != nil {
+		return o.Pkg
+	}
+	return nil
 }
